@@ -51,6 +51,16 @@ func dump(sb *strings.Builder, v reflect.Value, depth int) {
 			}
 			dump(sb, v.Index(i), depth+1)
 		}
+		// what lies between len and cap is part of the representation too: a later reslice can make
+		// it visible again, so two objects that differ only there have different futures
+		if v.Kind() == reflect.Slice && v.Cap() > v.Len() && v.Cap()-v.Len() <= 64 {
+			full := v.Slice(0, v.Cap())
+			sb.WriteString(" ;")
+			for i := v.Len(); i < full.Len(); i++ {
+				sb.WriteString(" ")
+				dump(sb, full.Index(i), depth+1)
+			}
+		}
 		sb.WriteString("]")
 	case reflect.Bool:
 		fmt.Fprintf(sb, "%v", v.Bool())
